@@ -30,7 +30,7 @@ m = {
  "setup_cmd": f"cd /verif/siminstr && {ENV} /opt/veriftools/go1.26.8/bin/go build -o /verif/bin/siminstr . && cd /verif/simrt && {ENV} /opt/veriftools/go1.26.8/bin/go build ./... && {ENV} /opt/veriftools/go1.26.8/bin/go build -race std",
  "hooks": {
   "guard": "none (no hook is committed to /repo)",
-  "enable": "every check copies /repo's working tree to a scratch directory and AST-instruments the copy (/verif/siminstr): yields before channel operations, go statements through simrt.Go, mutex operations, simulated clock, os.Open/OpenFile/Create/Stat/ReadDir/MkdirAll through simrt (injected file faults); /repo itself is never modified",
+  "enable": "every check copies /repo's working tree to a scratch directory and AST-instruments the copy (/verif/siminstr): yields before channel operations, go statements through simrt.Go, mutex, WaitGroup and sync/atomic operations as scheduling points, a loop counter in every for body (busy-loop detection), simulated clock, os.Open/OpenFile/Create/Stat/ReadDir/MkdirAll through simrt (injected file faults); /repo itself is never modified",
   "baseline_off_cmd": "cd /repo && go test -vet=off -count=1 ./...",
   "source_commits": [],
   "add_only": True,
